@@ -1,4 +1,5 @@
 import EtVerif.Props.C08
+import EtVerif.Props.TrC08
 #print axioms EtVerif.C08.extract_split
 #print axioms EtVerif.C08.extract_signs
 #print axioms EtVerif.C08.extract_disjoint
@@ -16,3 +17,6 @@ import EtVerif.Props.C08
 #print axioms EtVerif.C08.discount_zero_rep
 #print axioms EtVerif.C08.discount_zero_rep_exact
 #print axioms EtVerif.C08.discount_zero_rep_set_exact
+-- refinement of the translated Go kernels (Gen/Translated.lean, regenerated from /repo) to the model
+#print axioms EtVerif.TrC08.extractDistrust_refines
+#print axioms EtVerif.TrC08.discount_refines
